@@ -79,46 +79,66 @@ def dumps(x) -> str:
 
 
 # ---------------------------------------------------------------- lifting
-def lift(elem, keep_prefixes=("w", "r")) -> list:
+class Interner:
+    """Injective shortening of namespace URIs: `N/last-segment`.  The model
+    depends on URIs only through equality and (for a relationships part's root)
+    the last path segment - the C18 theorems `view_rename_uris` state the
+    invariance that makes this sound; it keeps model inputs small."""
+
+    def __init__(self):
+        self.m: dict[str, str] = {}
+
+    def __call__(self, uri):
+        if uri is None:
+            return None
+        if uri not in self.m:
+            last = [p for p in uri.split("/") if p and p != "."]
+            self.m[uri] = f"{len(self.m)}/{last[-1] if last else ''}"
+        return self.m[uri]
+
+
+def lift(elem, intern=None, keep_prefixes=("w", "r")) -> list:
     """lxml node -> rnode in jt form.  Only the namespace bindings the model's
     `view` looks at (w, r) are transmitted: view ignores all others."""
     from lxml import etree  # noqa: PLC0415
 
+    intern = intern or (lambda u: u)
     if not isinstance(elem.tag, str):
         return [0, OS(elem.tail)]
     q = etree.QName(elem.tag)
     nsmap = elem.nsmap
-    ns = [[OS(p), S(nsmap[p])] for p in keep_prefixes if p in nsmap]
+    ns = [[OS(p), S(intern(nsmap[p]))] for p in keep_prefixes if p in nsmap]
     attrs = []
     for k, v in elem.attrib.items():
         qa = etree.QName(k)
-        attrs.append([OS(qa.namespace), S(qa.localname), S(v)])
+        attrs.append([OS(intern(qa.namespace)), S(qa.localname), S(v)])
     return [
         1,
         OS(elem.prefix),
-        OS(q.namespace),
+        OS(intern(q.namespace)),
         S(q.localname),
         ns,
         attrs,
         OS(elem.text),
         OS(elem.tail),
-        [lift(k, keep_prefixes) for k in elem],
+        [lift(k, intern, keep_prefixes) for k in elem],
     ]
 
 
-def enc_tree(elem) -> list:
+def enc_tree(elem, intern=None) -> list:
     """lxml node -> the jt form Driver.enc_anode prints (for the merged tree)."""
     from lxml import etree  # noqa: PLC0415
 
+    intern = intern or (lambda u: u)
     if not isinstance(elem.tag, str):
         return [0, OS(elem.tail)]
     q = etree.QName(elem.tag)
     attrs = []
     for k, v in elem.attrib.items():
         qa = etree.QName(k)
-        attrs.append([OS(qa.namespace), S(qa.localname), S(v)])
-    return [1, OS(q.namespace), S(q.localname), attrs, OS(elem.text), OS(elem.tail),
-            [enc_tree(k) for k in elem]]
+        attrs.append([OS(intern(qa.namespace)), S(qa.localname), S(v)])
+    return [1, OS(intern(q.namespace)), S(q.localname), attrs, OS(elem.text), OS(elem.tail),
+            [enc_tree(k, intern) for k in elem]]
 
 
 # ----------------------------------------------------------- model driver
